@@ -106,6 +106,7 @@ func body(w *run.Worker) {
 				w.Count("fuzz_execs_"+t, res.execs[t])
 				w.Count("fuzz_interesting_inputs_"+t, res.interesting[t])
 			}
+			w.Count("fuzz_engine_false_alarms_replayed_clean", res.falseAlarms)
 			for _, f := range res.findings {
 				c.Violation(f.sig, "%s", f.detail)
 			}
